@@ -412,6 +412,8 @@ def eval_case(case: dict) -> dict:
         return eval_matrix(case, acc)
     if case["layer"] == "segmented":
         return eval_segmented(case, acc)
+    if case["layer"] == "autogen":
+        return eval_autogen(case, acc)
     raise ValueError(case["layer"])
 
 
@@ -550,6 +552,89 @@ def eval_matrix(case, acc):
     return {"viol": acc.viol(), "nt": True, "cnt": acc.cnt}
 
 
+K_AUTO = 12  # generated texts per document
+
+
+def auto_strings(src: str):
+    """texts for the auto-generation layer, duplicate-free"""
+    if src == "probes+tokens2":
+        base = PROBES + token_strings(2)
+    elif src == "tokens3":
+        base = token_strings(3)
+    elif src == "commands":
+        base = sorted(table())
+    else:
+        raise ValueError(src)
+    return list(dict.fromkeys(x for x in base if x))
+
+
+def eval_autogen(case, acc):
+    """Text that reaches a component by auto-generation instead of through its text field: DataFrame column names as
+    column-header text (header component without text: omitted / RTFColumnHeader() / text_convert True / False; single- and
+    multi-section), and page_by values as group-heading text (body text_convert default / True / False).
+    Converted iff the owning component's text_convert says so (documented default of both: on)."""
+    import polars as pl
+    import rtflite as rtf
+
+    mode, setting = case["mode"], case["setting"]
+    strings = auto_strings(case["src"])[case["lo"]:case["hi"]]
+    page = dict(nrow=1000000)
+
+    def header(st):
+        return rtf.RTFColumnHeader() if st == "obj" else rtf.RTFColumnHeader(text_convert=[st])
+
+    def flag(st):
+        return COMPONENT_DEFAULT["colheader"] if st in (None, "obj") else st
+
+    per_doc = K_AUTO * (2 if mode == "multi" else 1)
+    for k in range(0, len(strings), per_doc):
+        chunk = strings[k:k + per_doc]
+        what = f"autogen {mode} setting={setting} {case['src']}[{case['lo'] + k}:{case['lo'] + k + len(chunk)}]"
+        try:
+            if mode == "header":
+                df = pl.DataFrame({"HDR0": ["B0"], **{name: [f"B{j + 1}"] for j, name in enumerate(chunk)}})
+                kw = {} if setting is None else {"rtf_column_header": [header(setting)]}
+                d = parse(rtf.RTFDocument(df=df, rtf_page=rtf.RTFPage(**page), **kw).rtf_encode())
+                parts = [("HDR0", chunk, flag(setting))]
+            elif mode == "multi":
+                half = (len(chunk) + 1) // 2
+                parts, dfs = [], []
+                for si, (names, st) in enumerate(((chunk[:half], setting[0]), (chunk[half:], setting[1]))):
+                    dfs.append(pl.DataFrame({f"HDR{si}": [f"S{si}B0"], **{name: [f"S{si}B{j + 1}"] for j, name in enumerate(names)}}))
+                    parts.append((f"HDR{si}", names, flag(st)))
+                d = parse(rtf.RTFDocument(df=dfs, rtf_body=[rtf.RTFBody(), rtf.RTFBody()], rtf_page=rtf.RTFPage(**page),
+                                          rtf_column_header=[[header(setting[0])], [header(setting[1])]]).rtf_encode())
+            else:  # page_by headings generated from the data values
+                df = pl.DataFrame({"t": [f"D{j}" for j in range(len(chunk))], "g": chunk})
+                tc = {} if setting is None else {"text_convert": setting}
+                d = parse(rtf.RTFDocument(df=df, rtf_page=rtf.RTFPage(**page), rtf_column_header=[],
+                                          rtf_body=rtf.RTFBody(page_by=["g"], new_page=False, **tc)).rtf_encode())
+                parts = None
+        except Exception as e:
+            acc.add(None, f"encode-raised-{type(e).__name__}", f"{what}: {type(e).__name__}: {e}"[:300])
+            continue
+        rows = [b for pg in d.pages for b in pg.blocks if b.kind == "row"]
+        if parts is not None:
+            for tag, names, fl in parts:
+                hr = [r for r in rows if r.cells and r.cells[0].text == tag]
+                if len(hr) != 1 or len(hr[0].cells) != len(names) + 1:
+                    acc.add(None, f"structure-autogen-{mode}", f"{what}: header row {tag} not found once with {len(names) + 1} cells: {[r.texts for r in rows]!r}"[:400])
+                    continue
+                for name, cell in zip(names, hr[0].cells[1:]):
+                    acc.check(f"autogen-{mode}-{'default' if setting is None else setting}", name, fl, events_plain(cell.events))
+        else:
+            eff = COMPONENT_DEFAULT["body"] if setting is None else setting
+            ok = len(rows) == 2 * len(chunk) and all(len(r.cells) == 1 for r in rows) and [r.cells[0].text for r in rows[1::2]] == [f"D{j}" for j in range(len(chunk))]
+            if not ok:
+                acc.add(None, "structure-autogen-page_by", f"{what}: rows {[r.texts for r in rows]!r}"[:400])
+                continue
+            for name, r in zip(chunk, rows[0::2]):
+                acc.check(f"autogen-page_by-{'default' if setting is None else setting}", name, eff, events_plain(r.cells[0].events))
+        acc.count("autogen-documents")
+    acc.count(f"autogen-cases:{mode}")
+    return {"viol": acc.viol(), "nt": True, "cnt": acc.cnt}
+
+
 SEG_PROBES = ("\\alpha^2", "\\mathbb{R}_i")
 
 
@@ -656,7 +741,11 @@ def plan(run):
                 "text_convert matrix of a 2x2 body, a 1x2 header row and 2-line title/subline/page header/page footer; "
                 "(d) body rendered in segments: page_by with new_page=False, every composition of the rows into groups (quick: 6 compositions of 5 rows; "
                 "thorough: all 64 of 7 rows) x nrow {one page, 5} x text_convert as full matrix / per-row column vector x every 0/1 row-flag vector - "
-                "a cell is converted iff its own flag is set. "
+                "a cell is converted iff its own flag is set; "
+                f"(e) auto-generated text: DataFrame column names as header text (header omitted / RTFColumnHeader() / text_convert True / False; "
+                f"single-section, and two sections x 9 setting pairs) and page_by values as group headings (body text_convert default / True / False), "
+                f"{K_AUTO} texts per document, texts = probe strings + all token strings of <= 2 tokens (thorough: + <= 3 tokens + all {ncmd} commands) - "
+                "converted iff the owning component's text_convert says so. "
                 "a case = one packed document (a,b) or one component setting (c); non-trivial = contains a conversion token; "
                 "results are per string (counters strings / agree / known:*)")
     run.assumptions = [
@@ -694,6 +783,22 @@ def plan(run):
     for need in ("segmented-pages=1", "segmented-pages=2+", "segmented-documents-with-mid-body-heading"):
         if done and not run.viol and not run.cnt.get(need):
             run.harness_errors.append({"layer": "vacuity", "case": None, "error": f"segmented layer produced no document counted as {need}"})
+    # text that reaches a component by auto-generation (column names -> header text, page_by values -> group headings)
+    srcs = ["probes+tokens2"] if quick else ["probes+tokens2", "tokens3", "commands"]
+    hs = ("obj", True, False)
+    cases = []
+    for src in srcs:
+        n = len(auto_strings(src))
+        for lo in range(0, n, 480):
+            sl = {"layer": "autogen", "src": src, "lo": lo, "hi": min(lo + 480, n)}
+            cases += [{**sl, "mode": "header", "setting": st} for st in (None, "obj", True, False)]
+            cases += [{**sl, "mode": "page_by", "setting": st} for st in (None, True, False)]
+            if src != "tokens3":
+                cases += [{**sl, "mode": "multi", "setting": [a, b]} for a in hs for b in hs]
+    run.layer("auto-generated-text-x-text_convert", fn, cases, chunk=1, total=len(cases))
+    for need in ("autogen-cases:header", "autogen-cases:multi", "autogen-cases:page_by"):
+        if all(l["completed"] for l in run.layers) and not run.viol and not run.cnt.get(need):
+            run.harness_errors.append({"layer": "vacuity", "case": None, "error": f"no case counted as {need}"})
     # accounting / vacuity
     exp_strings = ncmd * len(TEMPLATES) * 2 * len(fills) + nts * 2
     done = all(l["completed"] for l in run.layers)
